@@ -1,6 +1,7 @@
 import MalVerif.Props.C04
 import MalVerif.Py.TieVisitorTop
 import MalVerif.Py.TieVisitorTtc
+import MalVerif.Py.TieVisitorEq
 /-!
 # C04 for the *translated* visitor
 
@@ -17,7 +18,14 @@ chain of `parentCtx` of `t`.  Values are rendered by `rExpr`, `rTtc`, `rExprs`, 
 * compile (print x) = x: `compile_print_expr_nav`, `compile_print_reaches`, `compile_print_ttc`;
 * precedence / associativity: `shape_collect_left`, `shape_setops_left`, `dot_binds_tighter`,
   `star_and_type_bind_to_part`, `ttc_left_assoc`, `ttc_precedence`;
-* classification: `classify_last`.
+* classification: `classify_last`;
+* associations: `translated_association_is_model` (`visitAssociation` with `_post_process_multitudes`),
+  `translated_associations_is_model`, `compile_print_assoc`;
+* the whole-file assembly: `translated_visitMal_is_assemble` (`visitMal` = the model's `assemble`: defines, categories,
+  associations, include merging, de-duplication with Python's `==`; raises exactly when an include fails),
+  `translated_eq_is_model` (Python's `==` on the values that are de-duplicated = `catEqv` / `assetEqv` / `assocEqv`),
+  `translated_dedup_meta_order`, `translated_dedup_number_spelling` (the two repaired divergences, on the translated
+  code), `translated_include_flatten`, `translated_include_repeat`.
 -/
 namespace MalVerif.PropsGen.C04
 open MalVerif MalVerif.Mal MalVerif.Py.Visitor MalVerif.Py.GenVisitor
@@ -402,5 +410,143 @@ example : numsOK (.bin "addition" (.func "Exponential" ["0.1"]) (.bin "multiplic
 /-- the shape theorems are about trees that exist: the tree of `a.b.c` -/
 example : ∃ t, treeExpr 9 ([Tok.id "a", .dot, .id "b", .dot, .id "c"].zipIdx 0) = some (t, []) :=
   (shape_collect_left "a" "b" "c" (fun _ => .error .compileError) [] 100 0).imp fun _ h => h.1
+
+/-! ### 6. associations -/
+
+/-- **An association** `A [f] m <-- L --> m [g] B meta*`.  For every token list: the tree builder fails exactly when
+the model parser fails; otherwise they consume the same tokens and the translated `visitAssociation` (with
+`visitLinkname`, `visitField`, the `meta` comprehension, the `pop(0)` / `pop()` reading of the multiplicities and
+`_post_process_multitudes`) returns the rendering of the model's association, multiplicities normalised as
+`parseMult` normalises them.  `intOK`: INT tokens carry ASCII digit strings (what the lexer produces). -/
+theorem translated_association_is_model (c : V → M V) (toks : List V) (wf f : Nat) (its : List ITok)
+    (hint : ∀ x ∈ its, intOK x.1 = true) :
+    (treeAssociation f its = none → parseAssociation f (its.map Prod.fst) = none) ∧
+    (∀ t irest, treeAssociation f its = some (t, irest) →
+      ∃ a, parseAssociation f (its.map Prod.fst) = some (a, irest.map Prod.fst) ∧
+        ∀ g up, t.depth ≤ g → visitF c toks wf g (.ctx t up) = .ok (rAssoc a)) := by
+  have h := association_loop c toks wf f its hint
+  constructor
+  · intro hn; rw [hn] at h; exact h
+  · intro t irest hs
+    rw [hs] at h
+    obtain ⟨a, hp, _, _, hv⟩ := h
+    exact ⟨a, hp, hv⟩
+
+/-- **The declaration `associations { … }`**: `visitAssociations` returns `("associations", [every association])` -/
+theorem translated_associations_is_model (c : V → M V) (toks : List V) (wf f : Nat) (its : List ITok)
+    (hint : ∀ x ∈ its, intOK x.1 = true) :
+    (treeAssociationsBody f its = none → parseAssociationsBody f [] (its.map Prod.fst) = none) ∧
+    (∀ cs irest, treeAssociationsBody f its = some (cs, irest) →
+      ∃ as, parseAssociationsBody f [] (its.map Prod.fst) = some (as, irest.map Prod.fst) ∧
+        ∀ g i j up, (assocsNode i j cs).depth ≤ g →
+          visitF c toks wf g (.ctx (assocsNode i j cs) up) = .ok (.tuple [.str "associations", .list (as.map rAssoc)])) := by
+  have h := associations_tie c toks wf f its hint
+  constructor
+  · intro hn; rw [hn] at h; exact h
+  · intro cs irest hs
+    rw [hs] at h
+    obtain ⟨as, hp, _, hv⟩ := h
+    exact ⟨as, hp, hv⟩
+
+/-- the tokens the printer emits satisfy `intOK` when … they are the printed multiplicities (digit strings of numbers) -/
+theorem compile_print_assoc (c : V → M V) (toks : List V) (wf : Nat) (a : CAssoc) (hw : WFAssoc a) (f k : Nat)
+    (rest : List Tok) (hr : metaStart rest = false) (hf : a.metaD.length ≤ f)
+    (hint : ∀ x ∈ prAssoc a ++ rest, intOK x = true) :
+    ∃ t irest, treeAssociation f ((prAssoc a ++ rest).zipIdx k) = some (t, irest) ∧ irest.map Prod.fst = rest ∧
+      ∀ g up, t.depth ≤ g → visitF c toks wf g (.ctx t up) = .ok (rAssoc a) := by
+  have hparse := MalVerif.C04.parse_print_assoc a hw f rest hr hf
+  have hint' : ∀ x ∈ (prAssoc a ++ rest).zipIdx k, intOK x.1 = true := by
+    intro x hx
+    exact hint x.1 (by have := List.mem_map_of_mem (f := Prod.fst) hx; rwa [List.zipIdx_map_fst] at this)
+  have h := translated_association_is_model c toks wf f _ hint'
+  rw [List.zipIdx_map_fst, hparse] at h
+  cases ht : treeAssociation f ((prAssoc a ++ rest).zipIdx k) with
+  | none => exact absurd (h.1 ht) (by simp)
+  | some r =>
+    obtain ⟨t, irest⟩ := r
+    obtain ⟨a', hp, hv⟩ := h.2 t irest ht
+    simp only [Option.some.injEq, Prod.mk.injEq] at hp
+    obtain ⟨rfl, hrest⟩ := hp
+    exact ⟨t, irest, rfl, hrest.symm, hv⟩
+
+/-! ### 7. `visitMal`: the whole-file assembly, includes, de-duplication -/
+
+/-- **Python's `==` on what `visitMal` de-duplicates is the model's relation**: on the renderings of two categories /
+assets / associations the prelude's `==` (dictionaries ignore key order, lists element-wise, floats by value) is
+`catEqv` / `assetEqv` / `assocEqv` -/
+theorem translated_eq_is_model :
+    (∀ a b, V.eq (rCategory a) (rCategory b) = catEqv a b) ∧ (∀ a b, V.eq (rAsset a) (rAsset b) = assetEqv a b) ∧
+    (∀ a b, V.eq (rAssoc a) (rAssoc b) = assocEqv a b) := ⟨eq_rCategory, eq_rAsset, eq_rAssoc⟩
+
+/-- **`visitMal` is the model's `assemble`.**  `cs` are the children of the `mal` context, `ds` the model's
+declarations.  Hypotheses: visiting the child of the i-th `declaration` context returns the rendering of the i-th
+model declaration (`DeclVisits`; discharged by `translated_associations_is_model`, `include_tie`, `define_tie` and — not
+yet proved — the category tie); `self.compiler.compile` returns the rendering of the model's compilation of the
+included file and raises where the model fails (`CompileOK`).  Then the translated `visitMal` returns the rendering of
+`assemble inc ds` — defines updated in order, categories / assets / associations appended, every included
+specification merged key by key, and finally the first-occurrence de-duplication with Python's `==` — and it raises
+exactly when `assemble` fails, i.e. when an include fails. -/
+theorem translated_visitMal_is_assemble (c : V → M V) (toks : List V) (wf g : Nat) (inc : String → Option CSpec)
+    (hinc : CompileOK (selfAt c toks wf g) inc) (cs up : List PT) (ds : List Decl)
+    (hvis : Forall2 (DeclVisits (selfAt c toks wf g))
+      ((cs.filter (isRule "declaration")).map (mkCtx (.rule "mal" cs) up)) ds) :
+    match assemble inc ds with
+    | some s => visitF c toks wf (g+1) (.ctx (.rule "mal" cs) up) = .ok (rSpec s)
+    | none => ∃ e, visitF c toks wf (g+1) (.ctx (.rule "mal" cs) up) = .error e := by
+  rw [visitF_mal]
+  exact visitMal_spec (selfAt c toks wf g) inc hinc eqOK cs up ds hvis
+
+/-- the second loop of `visitMal` on Python values, `unique = []; for item in l: if item not in unique: …` -/
+theorem translated_dedup_is_model {α : Type} (r : α → V) (e : α → α → Bool) (h : ∀ a b, V.eq (r a) (r b) = e a b)
+    (l : List α) : dedupV [] (l.map r) = (dedupBy e l).map r := by
+  have := dedupV_map r e h [] l
+  rw [dedupBy_eq_aux]
+  simpa using this
+
+/-- **the repaired divergence F1 on the translated code**: two declarations of an asset that differ only in the order
+of their meta entries are one asset for the translated `visitMal` (its `item not in unique` uses `==` on dicts) -/
+theorem translated_dedup_meta_order :
+    let a1 : CAsset := { name := "Ab", category := "Sys", isAbstract := false, superAsset := none,
+                         metaD := [("user", "x"), ("developer", "y")], steps := [{ name := "s", type := "or" }] }
+    let a2 : CAsset := { a1 with metaD := [("developer", "y"), ("user", "x")] }
+    dedupV [] [rAsset a1, rAsset a2] = [rAsset a1] := by
+  intro a1 a2
+  have := translated_dedup_is_model rAsset assetEqv eq_rAsset [a1, a2]
+  rw [MalVerif.C04.dedup_merges_meta_order.1] at this
+  exact this
+
+/-- **F2 on the translated code**: `Exponential(1.0)` and `Exponential(1.00)` are the same for `==` -/
+theorem translated_dedup_number_spelling :
+    let st (n : String) : CStep := { name := "s", type := "or", ttc := some (.func "Exponential" [n]) }
+    let a (n : String) : CAsset := { name := "Ab", category := "Sys", isAbstract := false, superAsset := none, steps := [st n] }
+    dedupV [] [rAsset (a "1.0"), rAsset (a "1.00"), rAsset (a "1.5")] = [rAsset (a "1.0"), rAsset (a "1.5")] := by
+  intro st a
+  have := translated_dedup_is_model rAsset assetEqv eq_rAsset [a "1.0", a "1.00", a "1.5"]
+  rw [show dedupBy assetEqv [a "1.0", a "1.00", a "1.5"] = [a "1.0", a "1.5"] from by decide] at this
+  exact this
+
+/-- **include flattening for the translated code**: what an included file contributed may be de-duplicated first (its
+own `visitMal` did) — the outer de-duplication gives the same list … -/
+theorem translated_include_flatten {α : Type} (r : α → V) (e : α → α → Bool) (h : ∀ a b, V.eq (r a) (r b) = e a b)
+    (a b : List α) : dedupV [] ((dedupBy e a ++ b).map r) = dedupV [] ((a ++ b).map r) := by
+  rw [translated_dedup_is_model r e h, translated_dedup_is_model r e h, MalVerif.C04.include_flatten]
+
+/-- … and a file included twice contributes nothing the second time -/
+theorem translated_include_repeat {α : Type} (r : α → V) (e : α → α → Bool) (h : ∀ a b, V.eq (r a) (r b) = e a b)
+    (a x b : List α) (hrefl : ∀ y ∈ x, e y y = true) :
+    dedupV [] ((a ++ x ++ b ++ x).map r) = dedupV [] ((a ++ x ++ b).map r) := by
+  rw [translated_dedup_is_model r e h, translated_dedup_is_model r e h, MalVerif.C04.include_repeat e a x b hrefl]
+
+/-- the hypotheses of `translated_visitMal_is_assemble` are satisfiable: a `mal` node with one `include` declaration,
+the callback returning the rendering of a specification with one category -/
+example : visitF (fun _ => .ok (rSpec { categories := [("Sys", [])] })) [] 0 5
+      (.ctx (.rule "mal" [.rule "declaration" [.rule "include" [leaf (.kwInclude, 0), leaf (.str "\"a.mal\"", 1)]]]) []) =
+    .ok (rSpec { categories := [("Sys", [])] }) := by
+  have h := translated_visitMal_is_assemble (fun _ => .ok (rSpec { categories := [("Sys", [])] })) [] 0 4
+    (fun _ => some { categories := [("Sys", [])] }) (fun p => rfl)
+    [.rule "declaration" [.rule "include" [leaf (.kwInclude, 0), leaf (.str "\"a.mal\"", 1)]]] [] [.incl "a.mal"]
+    (.cons ⟨_, rfl, (include_tie (fun _ => .ok (rSpec { categories := [("Sys", [])] })) [] 0 "\"a.mal\"" 0 1 4 _
+      (by decide)).trans rfl⟩ .nil)
+  exact h
 
 end MalVerif.PropsGen.C04
